@@ -192,11 +192,36 @@ def ground_solver(assertions, timeout_ms, nscope=8, nterms=14, cap=120):
     for t in scope:
         s.add(outside != t)
     terms = [outside] + terms
-    for a in array_consts(list(assertions)):
+    arrs = array_consts(list(assertions))
+    for a in arrs:
         if a.decl().name() == 'alloc0':
             continue
         for cst in finite_support(a, scope) or []:
             s.add(cst)
+    # realisable lists only: the length of a list is the sum of its multiplicities (over the scope, which holds its support)
+    lens = {}
+    todo, seen = list(assertions), set()
+    while todo:
+        x = todo.pop()
+        if x.get_id() in seen:
+            continue
+        seen.add(x.get_id())
+        if z3.is_quantifier(x):
+            todo.append(x.body())
+        elif z3.is_app(x):
+            if z3.is_const(x) and x.decl().kind() == z3.Z3_OP_UNINTERPRETED and z3.is_int(x) and '.n!' in x.decl().name():
+                lens[x.decl().name().rsplit('.n!', 1)[0]] = x
+            todo.extend(x.children())
+    for a in arrs:
+        nm = a.decl().name()
+        if '.cnt!' in nm and a.sort().range() == z3.IntSort():
+            n = lens.get(nm.rsplit('.cnt!', 1)[0])
+            if n is not None:
+                total = z3.IntVal(0)
+                for i, t in enumerate(scope):
+                    first = z3.And([t != u for u in scope[:i]]) if i else z3.BoolVal(True)
+                    total = total + z3.If(first, z3.Select(a, t), 0)
+                s.add(n == total)
     for h in assertions:
         if has_quant(h):
             try:
@@ -256,13 +281,83 @@ def to_smt2(ob, ground=False):
 
 
 def model_dict(m):
+    """scalar constants as strings; array-valued probes as {'at': {index: value}} over the integers the model mentions"""
     out = {}
+    ints = set()
+    arrays = []
     for d in m.decls():
         if d.arity() == 0:
             try:
-                out[d.name()] = str(m[d])
+                v = m[d]
+                c = d()
+                if z3.is_array(c):
+                    if d.name().startswith('probe!'):
+                        arrays.append((d.name(), c))
+                    continue
+                out[d.name()] = str(v)
+                if z3.is_int_value(v):
+                    ints.add(v.as_long())
             except Exception:
                 pass
+    def entries(e):
+        """(index -> value expr) of a model array value built from store / const-array / as-array"""
+        out_, e0 = {}, e
+        for _ in range(400):
+            if z3.is_store(e):
+                i, v = e.arg(1), e.arg(2)
+                if z3.is_int_value(i) and i.as_long() not in out_:
+                    out_[i.as_long()] = v
+                e = e.arg(0)
+            else:
+                break
+        if z3.is_as_array(e):
+            fi = m.get_interp(z3.get_as_array_func(e))
+            if fi is not None:
+                for k in range(fi.num_entries()):
+                    en = fi.entry(k)
+                    i = en.arg_value(0)
+                    if z3.is_int_value(i) and i.as_long() not in out_:
+                        out_[i.as_long()] = en.value()
+        return out_
+
+    cand = sorted(i for i in ints if -5 <= i <= 10 ** 7)[:80]
+    for name, c in arrays:
+        try:
+            srt = c.sort()
+            if srt.domain() != z3.IntSort():
+                continue
+            vals = {}
+            try:
+                top = entries(m[c.decl()])
+                if isinstance(srt.range(), z3.ArraySortRef):
+                    for o, inner in top.items():
+                        ie = {str(i): str(v) for i, v in entries(inner).items() if str(v) not in ('0', 'False')}
+                        if ie:
+                            vals[str(o)] = ie
+                else:
+                    vals = {str(i): str(v) for i, v in top.items() if str(v) not in ('0', 'False')}
+                if vals:
+                    out[name] = {'at': vals}
+                    continue
+            except Exception:
+                vals = {}
+            if isinstance(srt.range(), z3.ArraySortRef):
+                for o in cand:
+                    inner = {}
+                    for i in cand:
+                        v = m.eval(z3.Select(z3.Select(c, z3.IntVal(o)), z3.IntVal(i)), model_completion=True)
+                        if str(v) not in ('0', 'False'):
+                            inner[str(i)] = str(v)
+                    if inner:
+                        vals[str(o)] = inner
+            else:
+                for i in cand:
+                    v = m.eval(z3.Select(c, z3.IntVal(i)), model_completion=True)
+                    if str(v) not in ('0', 'False'):
+                        vals[str(i)] = str(v)
+            out[name] = {'at': vals}
+        except Exception:
+            pass
     return out
 
 
